@@ -100,14 +100,78 @@ func runReplays(pg *Program, pkgDir string, specs []*HarnessSpec, jobs []*replay
 		return fmt.Errorf("package name for %s unknown", pkgDir)
 	}
 	var sb strings.Builder
-	fmt.Fprintf(&sb, "package %s\n\nimport (\n\t\"testing\"\n\tvs \"%s\"\n)\n\nfunc TestVerifReplay(t *testing.T) {\n\tvs.RunReplays(t, map[string]func(){\n", pkgName, VsPkgPath)
+	// imports needed by mockey patches
+	imports := map[string]string{} // package path -> alias
+	pkgPath := ModulePath + "/" + filepath.ToSlash(pkgDir)
+	mockExpr := func(target string) string {
+		// "pkg/path.Func", "(pkg/path.Type).Method", "(*pkg/path.Type).Method"
+		ptr, method := false, ""
+		t := target
+		if strings.HasPrefix(t, "(") {
+			i := strings.LastIndex(t, ").")
+			method = t[i+2:]
+			t = t[1:i]
+			if strings.HasPrefix(t, "*") {
+				ptr = true
+				t = t[1:]
+			}
+		}
+		dot := strings.LastIndex(t, ".")
+		pp, name := t[:dot], t[dot+1:]
+		q := name
+		if pp != pkgPath {
+			alias, ok := imports[pp]
+			if !ok {
+				alias = fmt.Sprintf("mp%d", len(imports))
+				imports[pp] = alias
+			}
+			q = alias + "." + name
+		}
+		if method == "" {
+			return q
+		}
+		if ptr {
+			return "(*" + q + ")." + method
+		}
+		return q + "." + method
+	}
+	var body strings.Builder
 	seen := map[string]bool{}
+	anyMock := false
 	for _, s := range specs {
 		if s.PkgDir == pkgDir && !seen[s.Name] {
 			seen[s.Name] = true
-			fmt.Fprintf(&sb, "\t\t%q: %s,\n", s.Name, s.Name)
+			if len(s.Mocks) == 0 {
+				fmt.Fprintf(&body, "\t\t%q: %s,\n", s.Name, s.Name)
+				continue
+			}
+			anyMock = true
+			fmt.Fprintf(&body, "\t\t%q: func() {\n", s.Name)
+			targets := make([]string, 0, len(s.Mocks))
+			for t := range s.Mocks {
+				targets = append(targets, t)
+			}
+			sort.Strings(targets)
+			for _, t := range targets {
+				fmt.Fprintf(&body, "\t\t\tdefer mockey.Mock(%s).To(%s).Build().UnPatch()\n", mockExpr(t), s.Mocks[t])
+			}
+			fmt.Fprintf(&body, "\t\t\t%s()\n\t\t},\n", s.Name)
 		}
 	}
+	fmt.Fprintf(&sb, "package %s\n\nimport (\n\t\"testing\"\n\tvs \"%s\"\n", pkgName, VsPkgPath)
+	if anyMock {
+		sb.WriteString("\tmockey \"github.com/bytedance/mockey\"\n")
+	}
+	ips := make([]string, 0, len(imports))
+	for pp := range imports {
+		ips = append(ips, pp)
+	}
+	sort.Strings(ips)
+	for _, pp := range ips {
+		fmt.Fprintf(&sb, "\t%s %q\n", imports[pp], pp)
+	}
+	sb.WriteString(")\n\nfunc TestVerifReplay(t *testing.T) {\n\tvs.RunReplays(t, map[string]func(){\n")
+	sb.WriteString(body.String())
 	sb.WriteString("\t})\n}\n")
 	testFile := filepath.Join(tmp, "zz_verif_replay_test.go")
 	if err := os.WriteFile(testFile, []byte(sb.String()), 0o644); err != nil {
